@@ -347,6 +347,23 @@ class _Normalizer:
                     and not any(isinstance(y, ast.Name) and y.id in local and y.id not in ps for y in ast.walk(v.body))
             return False
 
+        def truth_of(v):
+            from .srcmodel import ClassRef, FuncRef
+            if isinstance(v, ast.Constant):
+                return bool(v.value)
+            if isinstance(v, (ast.Tuple, ast.List)) and not any(isinstance(y, ast.Starred) for y in v.elts):
+                return bool(v.elts)
+            if isinstance(v, ast.Lambda):
+                return True
+            if isinstance(v, (ast.Name, ast.Attribute)):
+                try:
+                    r = me.repo.resolve_expr(v, me.m) if not isinstance(v, ast.Name) else me.repo.resolve_name(v.id, me.m)
+                except Exception:
+                    return None
+                if isinstance(r, (ClassRef, FuncRef)):
+                    return True
+            return None
+
         def specialise(rest, x, v):
             """``rest`` with the local ``x`` known to be ``v``; None when a use of ``x`` cannot take the value in place"""
             rest = copy.deepcopy(rest)
@@ -390,6 +407,21 @@ class _Normalizer:
                             return n
                         return ast.copy_location(copy.deepcopy(v), n)
                     return n
+
+                def visit_If(self_, n):
+                    # ``if x:`` / ``if not x:`` on the row's value: a class or function of the package and a non-empty display
+                    # are true, None / an empty display / 0 / '' are false
+                    t, neg = n.test, False
+                    while isinstance(t, ast.UnaryOp) and isinstance(t.op, ast.Not):
+                        t, neg = t.operand, not neg
+                    if isinstance(t, ast.Name) and t.id == x:
+                        tv = truth_of(v)
+                        if tv is not None:
+                            n.test = ast.copy_location(ast.Constant(value=(tv != neg)), n.test)
+                            n.body = [self_.visit(b) for b in n.body]
+                            n.orelse = [self_.visit(b) for b in n.orelse]
+                            return n
+                    return self_.generic_visit(n)
             out = [S().visit(st) for st in rest]
             return out if ok[0] else None
 
@@ -402,16 +434,21 @@ class _Normalizer:
             while i < len(blk):
                 st = blk[i]
                 i += 1
-                if not (isinstance(st, ast.Assign) and len(st.targets) == 1 and isinstance(st.targets[0], ast.Name)):
+                if not (isinstance(st, ast.Assign) and len(st.targets) == 1 and (isinstance(st.targets[0], ast.Name) or (
+                        isinstance(st.targets[0], ast.Tuple) and st.targets[0].elts and all(isinstance(y, ast.Name) for y in st.targets[0].elts)
+                        and len({y.id for y in st.targets[0].elts}) == len(st.targets[0].elts)))):
                     continue
-                x = st.targets[0].id
+                xs = [st.targets[0].id] if isinstance(st.targets[0], ast.Name) else [y.id for y in st.targets[0].elts]
+                tuple_target = isinstance(st.targets[0], ast.Tuple)
+                x = xs[0]
                 v = st.value
                 key = default = table = None
                 if isinstance(v, ast.Call) and isinstance(v.func, ast.Attribute) and v.func.attr == 'get' and 1 <= len(v.args) <= 2 \
                         and not v.keywords:
                     table, key = table_of(v.func.value), v.args[0]
                     default = v.args[1] if len(v.args) == 2 else ast.Constant(value=None)
-                    if not _is_simple_or_const(default):
+                    if not (_is_simple_or_const(default) or (tuple_target and isinstance(default, ast.Tuple) and all(
+                            row_value_ok(y) for y in default.elts))):
                         continue
                 elif isinstance(v, ast.Subscript) and isinstance(v.ctx, ast.Load) and not isinstance(v.slice, ast.Slice):
                     table, key = table_of(v.value), v.slice
@@ -420,25 +457,43 @@ class _Normalizer:
                 if not all(row_value_ok(val) for val in table.values):
                     continue
                 rest = blk[i:]
-                if not small(rest) or any(isinstance(n, ast.Name) and n.id == x for n in ast.walk(key)):
+                if not small(rest) or any(isinstance(n, ast.Name) and n.id in xs for n in ast.walk(key)):
                     continue
+
+                def spec_all(val):
+                    """the statements after the look-up with the target name(s) known to be (the parts of) ``val``"""
+                    if not tuple_target:
+                        vals = [val]
+                    elif isinstance(val, ast.Tuple) and len(val.elts) == len(xs) and not any(isinstance(y, ast.Starred) for y in val.elts):
+                        vals = list(val.elts)
+                    else:
+                        return None, False
+                    body = rest
+                    pre_ = []
+                    for nm_, v_ in zip(xs, vals):
+                        b2 = specialise(body, nm_, v_)
+                        if b2 is None:
+                            if isinstance(v_, ast.Lambda):
+                                return None, False
+                            pre_.append(ast.Assign(targets=[ast.Name(id=nm_, ctx=ast.Store())], value=copy.deepcopy(v_)))
+                            b2 = copy.deepcopy(body)
+                        body = b2
+                    return pre_ + body, True
                 # the key expression is read once per arm test: nothing in between changes it (tests only)
                 arms = []
                 good = True
                 for k_, val in zip(table.keys, table.values):
-                    body = specialise(rest, x, val)
-                    if body is None:
-                        body = [ast.Assign(targets=[ast.Name(id=x, ctx=ast.Store())], value=copy.deepcopy(val))] + copy.deepcopy(rest)
-                        if isinstance(val, ast.Lambda):
-                            good = False
-                            break
+                    body, ok_ = spec_all(val)
+                    if not ok_:
+                        good = False
+                        break
                     arms.append((k_, body))
                 if not good:
                     continue
                 if default is not None:
-                    last = specialise(rest, x, default)
-                    if last is None:
-                        last = [ast.Assign(targets=[ast.Name(id=x, ctx=ast.Store())], value=default)] + copy.deepcopy(rest)
+                    last, ok_ = spec_all(default)
+                    if not ok_:
+                        continue
                 else:
                     last = [ast.Raise(exc=ast.Call(func=ast.Name(id='KeyError', ctx=ast.Load()), args=[copy.deepcopy(key)], keywords=[]),
                                       cause=None)]
@@ -842,6 +897,8 @@ class _Normalizer:
                     return n
                 g = n.generators[0]
                 items = const_items(g.iter)
+                if items is None and isinstance(g.iter, (ast.Tuple, ast.List)) and not g.iter.elts:
+                    items = []          # a comprehension over the empty display
                 if items is None:
                     return n
                 outs = []
